@@ -3,8 +3,10 @@
 // the stored content, nothing else": whatever rows the recomputation query returns, the history digest written for a day is the
 // chain over the days of the SAME room and entity - started from the stored digest of the last clean day, or from the day's own
 // digest when the room/entity has no earlier day - and does not depend on which other rooms, entities or days happen to be
-// recomputed in the same pass.  The SQL (which rows are selected, what a day's rows are) is NOT modelled: the row streams are
-// arbitrary sequences; blake3 is an uninterpreted function.
+// recomputed in the same pass; the entry count of a recomputed day is the number of rows the day's query returns and its digest is
+// the hash over ALL their signatures, in the query's order; every day the first query returns is visited; what was computed is what
+// the UPDATE statements are executed with, once per day.  The SQL (which rows are selected, what a day's rows are) is NOT modelled:
+// the row streams are arbitrary sequences; blake3 is an uninterpreted function.
 #![allow(unused_imports, unused_variables, dead_code, unused_mut, non_snake_case)]
 use vstd::prelude::*;
 use std::collections::{HashMap, HashSet, VecDeque};   // the std collections a change to the extracted code may reach for
@@ -67,19 +69,24 @@ impl Rows {
         }
     { unimplemented!() }
 }
+/// what a statement was executed with: the bound parameter tuple, uninterpreted
+pub struct PV { x: u8 }
+pub uninterp spec fn pv<P>(p: P) -> PV;
 pub struct Statement { x: u8 }
 impl Statement {
+    /// the parameter tuples this prepared statement was executed with so far, in order: a fact only `execute` adds to
+    pub uninterp spec fn log(&self) -> Seq<PV>;
     /// machine arithmetic: a result set has fewer than 2^32 rows (entry_number is a u32 counter)
     #[verifier::external_body]
-    pub fn query<P>(&mut self, p: P) -> (r: std::result::Result<Rows, rusqlite::Error>) ensures r is Ok ==> r->Ok_0.rem().len() < u32::MAX && no_zero_room(r->Ok_0.rem())     // ASSUMED: no room has the all-zero identifier (the loop's sentinel for "no previous row"; ids are 16 random bytes)
+    pub fn query<P>(&mut self, p: P) -> (r: std::result::Result<Rows, rusqlite::Error>) ensures final(self).log() == old(self).log(), r is Ok ==> r->Ok_0.rem().len() < u32::MAX && no_zero_room(r->Ok_0.rem())     // ASSUMED: no room has the all-zero identifier (the loop's sentinel for "no previous row"; ids are 16 random bytes)
     { unimplemented!() }
     #[verifier::external_body]
-    pub fn execute<P>(&mut self, p: P) -> (r: std::result::Result<usize, rusqlite::Error>) { unimplemented!() }
+    pub fn execute<P>(&mut self, p: P) -> (r: std::result::Result<usize, rusqlite::Error>) ensures r is Ok ==> final(self).log() == old(self).log().push(pv(p)) { unimplemented!() }
 }
 pub struct Connection { x: u8 }
 impl Connection {
     #[verifier::external_body]
-    pub fn prepare_cached(&self, q: &str) -> (r: std::result::Result<Statement, rusqlite::Error>) { unimplemented!() }
+    pub fn prepare_cached(&self, q: &str) -> (r: std::result::Result<Statement, rusqlite::Error>) ensures r is Ok ==> r->Ok_0.log() == Seq::<PV>::empty() { unimplemented!() }
 }
 //@ extract src/database/daily_log.rs :: struct DailyLog
 //@ end
@@ -129,6 +136,24 @@ pub proof fn lemma_expected_prefix(s: Seq<Day>, x: Day, k: int)
     }
 }
 
+/// the bytes a day's digest is taken over: the signatures of the rows the day's query returns, in the order it returns them
+pub open spec fn sig_concat(rows: Seq<RowData>) -> Seq<u8>
+    decreases rows.len()
+{
+    if rows.len() == 0 { Seq::<u8>::empty() } else { spec_col::<Vec<u8>>(rows[0], 0)@ + sig_concat(rows.skip(1)) }
+}
+/// the digest of a day, from the property: none for a day without rows, else the hash over every signature
+pub open spec fn day_digest(rows: Seq<RowData>) -> Option<Seq<u8>> {
+    if sig_concat(rows).len() == 0 { None } else { Some(blake3::hash_bytes(blake3::spec_h(sig_concat(rows)))) }
+}
+pub broadcast proof fn lemma_concat_assoc(a: Seq<u8>, b: Seq<u8>, c: Seq<u8>)
+    ensures #[trigger] ((a + b) + c) == a + (b + c),
+{ assert(((a + b) + c) =~= a + (b + c)); }
+/// one line of the days to visit, as read from its row
+pub open spec fn day_of_row(d: RowData) -> (Uid, String, i64, bool, Option<Vec<u8>>, Option<Vec<u8>>) {
+    (spec_col::<Uid>(d, 0), spec_col::<String>(d, 1), spec_col::<i64>(d, 2), spec_col::<bool>(d, 3), spec_col::<Option<Vec<u8>>>(d, 4), spec_col::<Option<Vec<u8>>>(d, 5))
+}
+
 //@ extract src/database/daily_log.rs :: impl DailyLogsUpdate / fn compute
 //@ result r
 //@ attr #[verifier::exec_allows_no_decreases_clause]
@@ -138,22 +163,49 @@ pub proof fn lemma_expected_prefix(s: Seq<Day>, x: Day, k: int)
 //@ insert body-start
         let ghost mut seen: Seq<Day> = Seq::empty();
         let ghost mut reported: Seq<(Uid, Seq<char>, i64)> = Seq::empty();
+        let ghost mut computed_writes: Seq<PV> = Seq::empty();
+        let ghost mut history_writes: Seq<PV> = Seq::empty();
+        broadcast use lemma_concat_assoc;
 //@ insert after-stmt "self.add_log(DailyLog {"
                 proof { reported = reported.push((room, entity@, date)); }
         proof { assert(<[u8; 16] as PartialEqSpec<[u8; 16]>>::obeys_eq_spec()); }
+//@ insert before-stmt "while let Some(row) = rows.next()?"
+        let ghost all_days = rows.rem();
 //@ loop "while let Some(row) = rows.next()?"
             invariant no_zero_room(rows.rem()), rooms_not_zero(logs@),
+                // [every_day_the_query_returns_is_visited_so_far]{C09} the days to visit are the lines the query returned, all of them, in order
+                logs@.len() + rows.rem().len() == all_days.len(),
+                rows.rem() =~= all_days.skip(logs@.len() as int),
+                forall|i: int| 0 <= i < logs@.len() ==> #[trigger] logs@[i] == day_of_row(all_days[i]),
 //@ insert after-stmt "let mut previous_room: Uid = [0; 16];"
         assert(is_zero(previous_room));
 //@ loop "for (room, entity, date, need_recompute, daily_hash, history_hash) in logs" iter it
             invariant
                 rooms_not_zero(it.seq()),
                 seen.len() == it.index@,
+                // [every_day_the_query_returns_is_visited]{C09} the pass visits one day per line of the query, none dropped
+                it.seq().len() == all_days.len(),
+                // [every_recomputed_day_is_written_so_far]{C09} the statement that stores a recomputed day was executed once per recomputed day, with what was computed for it
+                update_computed_stmt.log() == computed_writes,
+                // [every_rechained_day_is_written_so_far]{C09} the statement that stores a re-chained history was executed once per re-chained day
+                update_history_stmt.log() == history_writes,
                 seen.len() == 0 ==> is_zero(previous_room),
                 seen.len() > 0 ==> previous_room == seen.last().room && previous_entity@ == seen.last().entity
                     && ov(previous_hash) == seen.last().daily && ov(previous_history) == expected_hist(seen, seen.len() - 1),
+//@ insert after-stmt "let mut comp_rows ="
+                let ghost day_rows = comp_rows.rem();
+//@ insert after-stmt "let signature: Vec<u8> = comp.get(0)?;"
+                    proof { assert(sig_concat(rem_before) == signature@ + sig_concat(comp_rows.rem())); }
+//@ insert before-stmt "let signature: Vec<u8> = comp.get(0)?;"
+                    let ghost rem_before = seq![comp.data()] + comp_rows.rem();
+                    proof { assert(rem_before.skip(1) =~= comp_rows.rem()); }
 //@ loop "while let Some(comp) = comp_rows.next()?"
                     invariant entry_number + comp_rows.rem().len() < u32::MAX,
+                        update_computed_stmt.log() == computed_writes, update_history_stmt.log() == history_writes,
+                        // [every_row_of_the_day_is_counted_so_far]{C09}
+                        entry_number + comp_rows.rem().len() == day_rows.len(),
+                        // [every_signature_of_the_day_is_hashed_so_far]{C09} the digest is fed the signature of every row the day's query returns, in order
+                        hasher.fed() + sig_concat(comp_rows.rem()) == sig_concat(day_rows),
 //@ insert before-stmt "if !need_recompute {"
             let ghost k = seen.len() as int;
             let ghost g_room = room;
@@ -162,9 +214,10 @@ pub proof fn lemma_expected_prefix(s: Seq<Day>, x: Day, k: int)
             proof { if k > 0 { lemma_expected_prefix(seen, clean_day, k - 1); } }
 //@ insert-each after-stmt "hasher.update(previous);"
                         proof { assert(previous@ + Seq::<u8>::empty() =~= previous@); }
-//@ insert before-stmt "update_history_stmt.execute((&hash, &room, &entity, date))?;"
+//@ insert after-stmt "let hash = hasher.finalize().as_bytes().to_vec();" #1
                         // [rechained_history_is_the_chain_of_its_own_room_and_entity] a clean day that follows a recomputed one gets the chain over the days of its own room and entity
                         assert(Some(hash@) == expected_hist(seen.push(clean_day), k));
+                        proof { history_writes = history_writes.push(pv((&hash, &room, &entity, date))); }
 //@ insert after-stmt "previous_entity = entity;" #1
                 proof {
                     // [history_carried_from_the_last_clean_day] after a day that is not recomputed, the chain continues from that day's history - its stored one when it is the first day of its room and entity in the pass
@@ -174,9 +227,12 @@ pub proof fn lemma_expected_prefix(s: Seq<Day>, x: Day, k: int)
 //@ insert after-stmt "let daily_hash = if hasher.count() == 0 {"
                 let ghost dirty_day = Day { room: g_room, entity: g_entity, dirty: true, daily: ov(daily_hash), stored_hist: clean_day.stored_hist };
                 proof { if k > 0 { lemma_expected_prefix(seen, dirty_day, k - 1); } }
-//@ insert before-stmt "update_computed_stmt.execute(("
+//@ insert after-stmt "let history_hash = if previous_room.eq(&room) && previous_entity.eq(&entity) {"
                 // [recomputed_history_is_the_chain_of_its_own_room_and_entity] the history digest written for a recomputed day is the chain over the days of the same room and entity (started by the day's own digest when there is no earlier day), whatever other rooms and entities are in the pass
                 assert(ov(history_hash) == expected_hist(seen.push(dirty_day), k));
+                // [recomputed_day_counts_and_hashes_every_stored_row_of_the_day]{C09} what is computed for a day is a function of the rows the day's query returns, nothing else: the entry count is their number and the digest is the hash over all their signatures (none for a day without rows)
+                assert(entry_number == day_rows.len() && ov(daily_hash) == day_digest(day_rows));
+                proof { computed_writes = computed_writes.push(pv((entry_number, &daily_hash, &history_hash, &room, &entity, date))); }
 //@ insert after-stmt "previous_entity = entity;" #2
                 proof { seen = seen.push(dirty_day); }
                 // [every_recomputed_day_is_reported_for_the_data_changed_event]{C18} every (room, entity, day) that was recomputed - also a day that became empty - is handed to the log update from which the data-changed event is built
